@@ -190,7 +190,17 @@ def coqchk(fam, modules, timeout=3000):
 def extract_build(fam, drivers=None, exe="runner", timeout=900):
     """coqc coq/<fam>/Extract.v with cwd=work/<fam>/ml (Extraction writes *.ml there), then link
     runner/<fam>/<drivers> with ocamlfind ocamlopt.  Returns (ok, exe_path, log)."""
-    ml = os.path.join(WROOT, fam, "ml")
+    # one build directory per process: two checks of the same family (C01/C02/C09, C10/C11 ...) may run at the same
+    # time against the same work root and must not delete each other's runner
+    ml = os.path.join(WROOT, fam, "ml-%d" % os.getpid())
+    for old in glob.glob(os.path.join(WROOT, fam, "ml-*")):
+        try:
+            pid = int(old.rsplit("-", 1)[1])
+            os.kill(pid, 0)
+        except (ValueError, ProcessLookupError):
+            shutil.rmtree(old, ignore_errors=True)
+        except PermissionError:
+            pass
     os.makedirs(ml, exist_ok=True)
     src = os.path.join(COQ, fam, "Extract.v")
     with flock("ml-" + fam):
